@@ -386,6 +386,8 @@ fn inject(rng: &mut Rng, root: &Path, b: &mut Built, kind: &str, prefix: &mut Ve
         "gen-scalar-type-missing" => {
             if b.proj.gen.scalars.is_empty() || b.proj.gen.schema_output.is_none() { return false; }
             b.proj.gen.scalars.clear(); b.proj.gen.server_output = None;
+            // the printer's error carries the position of the scalar definition; one of the files declaring a scalar has to be named
+            f.files = b.proj.schema_files.iter().filter(|(_, t)| t.lines().any(|l| l.starts_with("scalar "))).map(|(n, _)| abs(root, n)).collect();
             f.stage = 8; f.known = vec!["generate-stage-error-not-located".into()];
         }
         "cfg-unknown-plugin" => { b.proj.plugins.push(format!("no-such-plugin-{serial}")); f.stage = 0; }
